@@ -3,6 +3,7 @@ import SqiModel.ThetaChain
 import SqiGen.Tables1
 import SqiGen.Tables3
 import SqiGen.Tables5
+import SqiModel.SkelTheta
 /- driver ops for the (2,2)-chain models:
      theta.trace <lvl> <row> <n> <ea> <which>   -> hook-visible trace of theta_chain_comput_strategy (which=0) /
                                                    _faster_no_eval (which=1) on strategies[row]; "… E" on a fault
@@ -40,6 +41,17 @@ def handle : List String → Option String
       let row ← tab[r]?
       let s := chain { row := row, n := n, eightAbove := ea != 0 }
       pure s!"{if s.err.isSome then 1 else 0} {toHex s.index} {toHex ((s.trace.map Ev.steps).sum)}"
+  | ["skel.theta", l, r, n, ea, w] => do  -- generated integer skeleton (from the C text) vs hand model, same run
+      let l ← parseHexNat? l
+      let r ← parseHexNat? r
+      let n ← parseHexNat? n
+      let ea ← parseHexNat? ea
+      let w ← parseHexNat? w
+      let tab ← tableOf l
+      let row ← tab[r]?
+      let a := SqiModel.SkelTheta.skelSummary w row n (ea != 0) 2048
+      let b := SqiModel.SkelTheta.modelSummary row n (ea != 0)
+      pure (if a == b then s!"1 {if a.1 then 1 else 0} {a.2.2.2.2.1.length}" else s!"0 skel={repr a} model={repr b}")
   | "theta.trace.row" :: n :: ea :: _ :: xs => do
       let n ← parseHexNat? n
       let ea ← parseHexNat? ea
